@@ -196,12 +196,14 @@ def check_vector(v):
         def streamed_files():
             pile = bnp.compute(g.read_intervals(bed, stream=True).get_pileup().get_data())
             cov = [[0] * size for size in G]
+            told = [0] * len(G)         # the records of the pile-up tile EVERY contig, also those after the last one that has entries
             for c_, a_, b_, x_ in zip(pile.chromosome.tolist(), pile.start.tolist(), pile.stop.tolist(), pile.value.tolist()):
+                told[names.index(c_)] += int(b_) - int(a_)
                 for p in range(int(a_), int(b_)):
                     cov[names.index(c_)][p] = int(x_)
             tot = int(bnp.compute(g.read_track(bdg, stream=True).sum()))
-            return cov, tot
-        cmp("read_intervals(stream).get_pileup / read_track(stream).sum", (v["pileup"], sum(val)), streamed_files)
+            return cov, tot, told
+        cmp("read_intervals(stream).get_pileup / read_track(stream).sum", (v["pileup"], sum(val), list(G)), streamed_files)
     # sequence under the intervals, reverse-complemented on the minus strand
     fa = os.path.join(v["_dir"], "g%s_%d.fa" % ("".join(str(x) for x in G), os.getpid()))
     if not os.path.exists(fa):
